@@ -199,6 +199,27 @@ let handle (fields : string list) : string * string =
         else "fail:handshake-response"
       | _ -> "fail:no-response" in
     (m, verdict)
+  | "handshakegw" :: sc :: tok :: _where :: body :: impl :: [] ->
+    (* the real binary: one handshake on a fresh tunnel; impl = raw responses and whether the gateway ended the stream *)
+    let cfg = { c_token_auth = bool_of tok; c_smartcard = bool_of sc; c_cookie_cb = false; c_name_cb = false;
+                c_host_cb = false; c_redir = parse_redir "0000000"; c_idle = Z0 } in
+    let b = bytes_of_hex body in
+    let hs = Model.create_packet Model.pKT_TYPE_HANDSHAKE_REQUEST b in
+    let items = [RData (hs, parse_answers "0000"); RErr] in
+    let evs = Model.run cfg items in
+    let ended = int_of_nat (Model.consumed cfg items) < 2 in
+    let raws = List.filter_map (function Resp (_, _, raw) -> Some (hex_of_bytes raw) | _ -> None) evs in
+    let m = Printf.sprintf "R=%s X=%s" (match raws with [] -> "-" | _ -> String.concat "," raws) (b01 ended) in
+    let ((((ma, mi), _), ext)) = Model.handshake_request b in
+    let field k = List.find_opt (fun t -> String.length t > 2 && String.sub t 0 2 = k) (split_on ' ' impl) in
+    let verdict =
+      match field "R=", field "X=" with
+      | Some r, Some x when r <> "R=-" && not (String.contains r ',') ->
+        let raw = bytes_of_hex (String.sub r 2 (String.length r - 2)) in
+        if not (Model.c17_oracle (bool_of sc) (bool_of tok) ma mi ext raw (x = "X=1")) then "fail:handshake-response"
+        else if m = impl then "ok" else "fail:handshake-differs"
+      | _ -> "fail:no-response" in
+    (m, verdict)
   | "process" :: bits :: redir :: idle :: live :: items :: impl :: [] ->
     let cfg = parse_cfg bits redir idle in
     let live = if live = "-" then [] else List.map bytes_of_hex (split_on ',' live) in
